@@ -928,3 +928,31 @@ pub fn breaker(key: &Key, r: &mut Rng) -> Option<Key> {
         item: di.to_token_stream().to_string(),
     })
 }
+
+
+/// A derive that usually accompanies `derive` on the same type.
+pub fn sibling_derive(derive: &str, r: &mut Rng) -> Option<&'static str> {
+    const GROUPS: &[&[&str]] = &[
+        &["Deref", "DerefMut"],
+        &["Index", "IndexMut"],
+        &["AsRef", "AsMut"],
+        &["Add", "AddAssign", "Sub", "SubAssign", "Sum"],
+        &["Mul", "MulAssign", "Div", "DivAssign", "Product"],
+        &["Unwrap", "TryUnwrap", "IsVariant", "TryInto"],
+        &["From", "Into", "Constructor", "TryFrom"],
+        &["Display", "Debug", "Error", "FromStr", "Binary", "LowerHex"],
+        &["Not", "Neg", "BitAnd", "BitOr", "BitXor", "BitAndAssign"],
+        &["IntoIterator", "Deref", "Index"],
+    ];
+    let gs: Vec<&&[&str]> = GROUPS.iter().filter(|g| g.contains(&derive)).collect();
+    if gs.is_empty() {
+        return None;
+    }
+    let g = **r.pick(&gs);
+    let others: Vec<&&str> = g.iter().filter(|d| **d != derive).collect();
+    if others.is_empty() {
+        None
+    } else {
+        Some(**r.pick(&others))
+    }
+}
